@@ -39,9 +39,12 @@ type Chain struct {
 }
 
 type Workload struct {
-	Writer  string    `json:"writer"` // fast | gosched | sleep | gate
-	Sync    bool      `json:"sync_writer"`
-	Toggle  bool      `json:"togglers"`
+	Writer string `json:"writer"` // fast | gosched | sleep | gate
+	Sync   bool   `json:"sync_writer"`
+	Toggle bool   `json:"togglers"`
+	// Filter: the toggler also moves the global level to Disabled, Error and Fatal: an event is then
+	// either written whole (as if alone) or not at all, whenever the switch happens
+	Filter  bool      `json:"filtering_togglers,omitempty"`
 	Trigger bool      `json:"trigger_writer,omitempty"` // the destination sits behind a *TriggerLevelWriter that lets everything through (its own mutex covers WriteLevel only)
 	Plain   int       `json:"plain_writers,omitempty"`  // with SyncWriter: goroutines that use the writer as a plain io.Writer (the standard library logger), 3 lines each
 	Closer  bool      `json:"closer,omitempty"`         // with SyncWriter: another goroutine calls Close on it meanwhile (as Logger.Fatal or a shutdown path would); Close is a call on the wrapped writer too
@@ -237,7 +240,11 @@ func run(wl *Workload) (msg string, nontrivial bool) {
 				default:
 				}
 				// neither setting filters any of the generated events (all at debug or above)
-				zerolog.SetGlobalLevel([]zerolog.Level{zerolog.TraceLevel, zerolog.DebugLevel}[i%2])
+				if wl.Filter {
+					zerolog.SetGlobalLevel([]zerolog.Level{zerolog.TraceLevel, zerolog.Disabled, zerolog.DebugLevel, zerolog.ErrorLevel, zerolog.TraceLevel, zerolog.FatalLevel}[i%6])
+				} else {
+					zerolog.SetGlobalLevel([]zerolog.Level{zerolog.TraceLevel, zerolog.DebugLevel}[i%2])
+				}
 				zerolog.DisableSampling(i%3 == 0)
 				runtime.Gosched()
 			}
@@ -296,6 +303,20 @@ func run(wl *Workload) (msg string, nontrivial bool) {
 	}
 	sort.Strings(got)
 	sort.Strings(want)
+	if wl.Filter {
+		// some events were filtered out, whole: what did arrive is a sub-multiset of the events produced alone
+		left := map[string]int{}
+		for _, s := range want {
+			left[s]++
+		}
+		for _, s := range got {
+			if left[s] == 0 {
+				return fmt.Sprintf("with the global level switching between Trace, Disabled, Error and Fatal the destination received %.200q, which is none of the events produced alone (or one too many of it)", s), nontrivial
+			}
+			left[s]--
+		}
+		return "", nontrivial
+	}
 	if len(got) != len(want) {
 		return fmt.Sprintf("destination received %d writes for %d events", len(got), len(want)), nontrivial
 	}
@@ -335,6 +356,7 @@ func genWorkload(rt *rapid.T, maxG int) *Workload {
 	g.Settings()
 	wl := &Workload{Writer: rapid.SampledFrom([]string{"fast", "gosched", "sleep", "gate"}).Draw(rt, "writer"), Sync: rapid.IntRange(0, 2).Draw(rt, "sync") == 0, Toggle: rapid.Bool().Draw(rt, "toggle"),
 		Console: rapid.IntRange(0, 3).Draw(rt, "console") == 0}
+	wl.Filter = wl.Toggle && rapid.IntRange(0, 2).Draw(rt, "filter") == 0
 	wl.Closer = wl.Sync && rapid.Bool().Draw(rt, "closer")
 	wl.Trigger = !wl.Console && rapid.IntRange(0, 2).Draw(rt, "trigger") == 0
 	if wl.Sync && !wl.Console {
